@@ -24,8 +24,9 @@ type Item struct {
 }
 
 type HReply struct {
-	Raw  hx.B  `json:"raw"`
-	Cuts []int `json:"cuts"`
+	Raw     hx.B  `json:"raw"`
+	Cuts    []int `json:"cuts"`
+	DelayMs int   `json:"delay_ms,omitempty"` // the backend is late with this reply
 }
 
 type HttpInput struct {
@@ -36,7 +37,10 @@ type HttpInput struct {
 	Replies []HReply `json:"replies"`  // backend reply to the k-th request it receives on this connection
 	Group   int      `json:"group"`    // cases of one group run concurrently
 	RealTCP bool     `json:"real_tcp"` // client leg over a real loopback TCP connection (segmentation then up to the kernel)
-	Marker  string   `json:"marker"`   // value of the X-C15 header in this case's requests (how the backend attributes connections)
+	// HalfClose (real TCP only): the client ends its sending direction right after its last
+	// write (HTTP/1.0 style "request, then shutdown") and only then reads the replies
+	HalfClose bool   `json:"half_close,omitempty"`
+	Marker    string `json:"marker"` // value of the X-C15 header in this case's requests (how the backend attributes connections)
 }
 
 type SResp struct {
@@ -345,6 +349,25 @@ func genOversend(r *hx.Rand, id string) HttpInput {
 	return in
 }
 
+// halfclose: the client writes its request(s) - one, or several back to back - ends its
+// sending direction at once and only then reads; the backend is late and/or its replies
+// are large.
+func genHalfClose(r *hx.Rand, id string, k int) HttpInput {
+	in := HttpInput{Class: "halfclose", RealTCP: true, HalfClose: true}
+	nreq := 1 + k%2
+	total := 0
+	for i := 0; i < nreq; i++ {
+		g := genRequest(r, id, true, false)
+		in.Msgs = append(in.Msgs, g.raw)
+		total += len(g.raw)
+		rep := genReply(r, g.method, k%3 != 0)
+		rep.DelayMs = []int{0, 20, 50}[(k/2)%3]
+		in.Replies = append(in.Replies, rep)
+	}
+	in.Items = segItems(randCuts(r, total))
+	return in
+}
+
 func genMalformed(r *hx.Rand, id string) HttpInput {
 	in := HttpInput{Class: "malformed"}
 	good := genRequest(r, id, true, false)
@@ -419,7 +442,7 @@ func (e *httpEnv) run(in HttpInput, id string) (HttpObs, string) {
 	}
 	var reps []httpReply
 	for _, rp := range in.Replies {
-		reps = append(reps, httpReply{Raw: rp.Raw, Cuts: rp.Cuts})
+		reps = append(reps, httpReply{Raw: rp.Raw, Cuts: rp.Cuts, DelayMs: rp.DelayMs})
 	}
 	e.be.setScript(id, reps)
 	n := atomic.AddInt32(&e.seq, 1)
@@ -519,6 +542,13 @@ loop:
 			if !waitFor(it.Wait) {
 				break loop
 			}
+		}
+	}
+	if in.HalfClose {
+		if tc, ok := cc.(*net.TCPConn); ok {
+			tc.CloseWrite()
+			atomic.StoreInt64(&last, time.Now().UnixNano())
+			waitFor(len(in.Msgs))
 		}
 	}
 	cc.Close()
